@@ -883,7 +883,10 @@ func (rn *runner) replay(v, c *tmconsensus.VersionedRoundView) {
 	H, R := v.Height, v.Round
 	variant := 0
 	if w.r.chance(1, 2) {
-		variant = 1 + w.r.below(10)
+		variant = 1 + w.r.below(11)
+		if variant == 11 {
+			variant = 13
+		}
 	}
 	if rn.hazards && R > 0 && w.r.chance(1, 3) {
 		variant = 11
@@ -940,6 +943,7 @@ func (rn *runner) replay(v, c *tmconsensus.VersionedRoundView) {
 	}
 	hashOK := true
 	curHdr, nextHdr := cur, next
+	signer := cur // whose keys sign the commit proof
 	hdCoq := ""
 	if known != nil {
 		hd = known.Header
@@ -961,6 +965,21 @@ func (rn *runner) replay(v, c *tmconsensus.VersionedRoundView) {
 			curHdr = w.forge(cur)
 			hd.ValidatorSet = curHdr.vs
 		}
+	case 13:
+		// the header's own validator set keeps Validators and both hashes (hence the genuine block hash) but carries a
+		// substituted PubKeys slice, and the commit proof is signed by exactly those substituted keys: a node that builds
+		// the round's proofs from the header's PubKeys would accept a quorum of signatures no validator made
+		sub := make([]int, len(cur.keys))
+		pks := make([]gcrypto.PubKey, len(cur.keys))
+		for i, k := range cur.keys {
+			sub[i] = (k + 1 + w.r.below(poolSize-1)) % poolSize
+			pks[i] = w.pool[sub[i]].Val.PubKey
+		}
+		fvs := tmconsensus.ValidatorSet{Validators: cur.vs.Validators, PubKeys: pks, PubKeyHash: cur.vs.PubKeyHash, VotePowerHash: cur.vs.VotePowerHash}
+		curHdr = valset{keys: cur.keys, pows: cur.pows, vs: fvs, ok: false}
+		hd.ValidatorSet = fvs
+		signer = valset{keys: sub, pows: cur.pows, vs: fvs, ok: false}
+		rn.stats["replay_substituted_pubkeys"]++
 	}
 	// the commit proof: precommits for the header in round r
 	idxs := allIdx(len(cur.keys))
@@ -980,7 +999,7 @@ func (rn *runner) replay(v, c *tmconsensus.VersionedRoundView) {
 		}
 	}
 	proof := tmconsensus.CommitProof{Round: r, PubKeyHash: string(cur.vs.PubKeyHash),
-		Proofs: map[string][]gcrypto.SparseSignature{target: rn.mkSigsNoKid(cur, kindPrecommit, h, r, target, idxs, flaw)}}
+		Proofs: map[string][]gcrypto.SparseSignature{target: rn.mkSigsNoKid(signer, kindPrecommit, h, r, target, idxs, flaw)}}
 	if variant == 0 && w.r.chance(1, 3) {
 		proof.Proofs[""] = rn.mkSigsNoKid(cur, kindPrecommit, h, r, "", rn.randSubset(len(cur.keys), 1), 0)
 	}
